@@ -1,5 +1,6 @@
 import Mustache.Proofs.RefineUnlock
 import Mustache.Proofs.RefineRun
+import Mustache.Proofs.RefineCreateIn
 
 /-!
 # Refinement — every history of the world model behaves like the abstract spec
@@ -22,6 +23,8 @@ spec reads every handle through `ordOf` = the driver's `St.ordinal` (latest ordi
   entities with the components absent; locked operations on handles that were issued; `clearArch` only on
   shared-free archetypes; `dep` declarations whose required components have ids below 128 — late declarations are
   otherwise unrestricted, whatever the existing archetypes hold; builders name a component once).
+
+`createIn_refines` covers the one creating entry point outside `Op`, `create(Archetype&)` (`WM.createIn`).
 
 `step_refines` covers EVERY operation, including the outermost `unlock` (the whole flush: the pack fold of
 `WM.applyPack` against the command-by-command `WS.applyCmd`); callbacks agree as multisets, for `unlock` by the
@@ -72,6 +75,58 @@ theorem run_refines (wid nthreads : Nat) (ops : List (Op Handle)) (hwf : WfRun i
     AllAgree info (CW.init wid nthreads) (specInit nthreads) ops :=
   run_refines_from info ops _ _ (init_inv wid nthreads) (init_bounds wid nthreads) (init_rel wid nthreads) hwf
 
+/-! ## `create(Archetype&)` -/
+
+/-- `create(Archetype&)` is `create(mask, shared)` with the archetype's own key wherever archetype keys are unique
+(with no dependency declared the entity goes into the archetype itself, otherwise where a lookup of its set leads) -/
+theorem createIn_eq_create {w : WM} (hk : Mustache.Proofs.Rows.KeysOK w) (t ai : Nat) (hai : ai < w.archs.length) :
+    w.createIn info t ai = w.create info t (w.arch ai).mask (w.arch ai).shared :=
+  Mustache.Proofs.Refine.createIn_eq_create info hk t ai hai
+
+/-- the spec step `specCreateWith` it is compared with IS the spec's `.create` step, with shared values in place of
+"every value 0" -/
+theorem step_create_eq_specCreateWith (s : WS) (t : Nat) (mask : Mask) (shared : List Nat) :
+    s.step info (.create t mask shared) = specCreateWith info s t mask (shared.map (fun sid => (sid, 0))) := rfl
+
+/-- ONE CALL of `create(Archetype&)` (`CW.createIn`: `WM.createIn`, the handle gets the next ordinal), from related
+states, any archetype index in range, locked or not, whatever was declared after the archetype came to exist: the
+conclusion of `step_refines` for `.create`, against the spec creation with the archetype's component set and the
+values of its shared components. Nothing is assumed beyond `Inv`/`Bounds`/`Rel` and the ranges (sortedness of the
+mask and pooledness of the descriptor are part of `Inv`). -/
+theorem createIn_refines {c : CW} {s : WS} (hi : Inv c) (hb : Bounds c) (hr : Rel c s) (t ai : Nat)
+    (ht : t < c.w.nthreads) (hai : ai < c.w.archs.length) (hb' : Bounds (c.createIn info t ai).1) :
+    Inv (c.createIn info t ai).1 ∧
+    Rel (c.createIn info t ai).1
+      (specCreateWith info s t (c.w.arch ai).mask (absShared c.w.pool (c.w.arch ai).shared)).1 ∧
+    stepAgree (c.createIn info t ai).1 (.create t (c.w.arch ai).mask []) (c.createIn info t ai).2.1
+      (c.createIn info t ai).2.2
+      (specCreateWith info s t (c.w.arch ai).mask (absShared c.w.pool (c.w.arch ai).shared)).2.1
+      (specCreateWith info s t (c.w.arch ai).mask (absShared c.w.pool (c.w.arch ai).shared)).2.2 :=
+  Mustache.Proofs.Refine.createIn_refines info hi hb hr t ai ht hai hb'
+
+/-- the same with any list of shared values that reads like the archetype's descriptor (e.g. in another order) -/
+theorem createIn_refines_gen {c : CW} {s : WS} (hi : Inv c) (hb : Bounds c) (hr : Rel c s) (t ai : Nat)
+    (ht : t < c.w.nthreads) (hai : ai < c.w.archs.length) (ssh : List (Nat × Nat))
+    (hv : ∀ sid, lookupS ssh sid = lookupS (absShared c.w.pool (c.w.arch ai).shared) sid)
+    (hb' : Bounds (c.createIn info t ai).1) :
+    Inv (c.createIn info t ai).1 ∧
+    Rel (c.createIn info t ai).1 (specCreateWith info s t (c.w.arch ai).mask ssh).1 ∧
+    stepAgree (c.createIn info t ai).1 (.create t (c.w.arch ai).mask []) (c.createIn info t ai).2.1
+      (c.createIn info t ai).2.2 (specCreateWith info s t (c.w.arch ai).mask ssh).2.1
+      (specCreateWith info s t (c.w.arch ai).mask ssh).2.2 :=
+  Mustache.Proofs.Refine.createIn_refines_gen info hi hb hr t ai ht hai ssh hv hb'
+
+/-- a shared-free archetype: the spec step is literally the operation `.create t mask []` -/
+theorem createIn_refines_sharedfree {c : CW} {s : WS} (hi : Inv c) (hb : Bounds c) (hr : Rel c s) (t ai : Nat)
+    (ht : t < c.w.nthreads) (hai : ai < c.w.archs.length) (hsf : (c.w.arch ai).shared = Shared.null)
+    (hb' : Bounds (c.createIn info t ai).1) :
+    Inv (c.createIn info t ai).1 ∧
+    Rel (c.createIn info t ai).1 (s.step info (.create t (c.w.arch ai).mask [])).1 ∧
+    stepAgree (c.createIn info t ai).1 (.create t (c.w.arch ai).mask []) (c.createIn info t ai).2.1
+      (c.createIn info t ai).2.2 (s.step info (.create t (c.w.arch ai).mask [])).2.1
+      (s.step info (.create t (c.w.arch ai).mask [])).2.2 :=
+  Mustache.Proofs.Refine.createIn_refines_sharedfree info hi hb hr t ai ht hai hsf hb'
+
 /-- the executable checker of the relation is sound -/
 theorem relB_sound {c : CW} {s : WS} (h : relB c s = true) : Rel c s := Mustache.Proofs.Refine.relB_sound h
 
@@ -109,5 +164,54 @@ example :
 /-- … and the late declaration really left an unclosed archetype behind: the archetypes at the end are `[0]` (the one
 the entity was created in) and `[0, 1]` (the one `assignShared` moved it to) -/
 example : (runBoth exInfo (CW.init 0 1) (specInit 1) exLateHistory).1.w.archs.map (·.mask) = [[0], [0, 1]] := by decide
+
+/-! ## `create(Archetype&)` on a concrete world -/
+
+/-- entity 0 created in `[0]`, then `0 → 1` declared, then shared type 7 assigned with value 3: archetype 0 = `[0]`
+(empty now, NOT closed under the table), archetype 1 = `[0, 1]` with shared 7 = 3 (holds entity 0) -/
+def exCin : CW × WS :=
+  runBoth exInfo (CW.init 0 1) (specInit 1) [.create 0 [0] [], .dep 0 [1], .sassign (exH 0 0) 7 3]
+
+example : exCin.1.w.archs.map (fun a => (a.mask, a.shared.ids, a.rows.length)) = [([0], [], 0), ([0, 1], [7], 1)] ∧
+    absShared exCin.1.w.pool (exCin.1.w.arch 1).shared = [(7, 3)] ∧ (exCin.1.w.arch 0).shared = Shared.null := by decide
+
+/-- the hypotheses of `createIn_refines` hold there (by `run_refines` and the checkers) -/
+theorem exCin_hyps : Inv exCin.1 ∧ Bounds exCin.1 ∧ Rel exCin.1 exCin.2 :=
+  have h := run_refines exInfo 0 1 [.create 0 [0] [], .dep 0 [1], .sassign (exH 0 0) 7 3]
+    (wfRun_of_check exInfo _ _ (by decide))
+  ⟨h.1, boundsB_sound (by decide), h.2.1⟩
+
+/-- `create(archetype 1)`: the spec creates `[0, 1]` with shared 7 = 3 (a value `.create` cannot express) -/
+example : Rel (exCin.1.createIn exInfo 0 1).1 (specCreateWith exInfo exCin.2 0 [0, 1] [(7, 3)]).1 :=
+  (createIn_refines exInfo exCin_hyps.1 exCin_hyps.2.1 exCin_hyps.2.2 0 1 (by decide) (by decide)
+    (boundsB_sound (by decide))).2.1
+
+/-- `create(archetype 0)`, the unclosed one: the entity goes to a NEW archetype `[0, 1]` without shared components,
+as the spec's `.create 0 [0] []` says (closure of `[0]` under the table) -/
+example : Rel (exCin.1.createIn exInfo 0 0).1 (exCin.2.step exInfo (.create 0 [0] [])).1 :=
+  (createIn_refines_sharedfree exInfo exCin_hyps.1 exCin_hyps.2.1 exCin_hyps.2.2 0 0 (by decide) (by decide)
+    (by decide) (boundsB_sound (by decide))).2.1
+
+example : (exCin.1.createIn exInfo 0 0).1.w.archs.map (fun a => (a.mask, a.shared.ids, a.rows.length)) =
+    [([0], [], 0), ([0, 1], [7], 1), ([0, 1], [], 1)] ∧
+    (exCin.1.createIn exInfo 0 1).1.w.archs.map (fun a => (a.mask, a.shared.ids, a.rows.length)) =
+    [([0], [], 0), ([0, 1], [7], 2)] := by decide
+
+/-- independently, by the executable checker of the relation -/
+example : relB (exCin.1.createIn exInfo 0 1).1 (specCreateWith exInfo exCin.2 0 [0, 1] [(7, 3)]).1 = true ∧
+    relB (exCin.1.createIn exInfo 0 0).1 (exCin.2.step exInfo (.create 0 [0] [])).1 = true := by decide
+
+/-- under lock `create(archetype 1)` is buffered; `Inv`/`Rel` hold after it, so `run_refines_from` carries on from
+there: the flush and two reads agree with the spec -/
+example :
+    let c := ((exCin.1.step exInfo .lock).1.createIn exInfo 0 1).1
+    let s := (specCreateWith exInfo (exCin.2.step exInfo .lock).1 0 [0, 1] [(7, 3)]).1
+    AllAgree exInfo c s [.unlock, .has (exH 1 0) 1, .hasShared (exH 1 0) 7] := by
+  intro c s
+  have h0 := step_refines exInfo exCin_hyps.1 exCin_hyps.2.1 exCin_hyps.2.2 .lock trivial (boundsB_sound (by decide))
+  have h1 := createIn_refines exInfo h0.1 (boundsB_sound (by decide)) h0.2.1 0 1 (by decide) (by decide)
+    (boundsB_sound (by decide))
+  exact (run_refines_from exInfo _ c s h1.1 (boundsB_sound (by decide)) h1.2.1
+    (wfRun_of_check exInfo _ _ (by decide))).2.2
 
 end Mustache.Props.Refinement
